@@ -1,3 +1,4 @@
+import IastModel.Lemmas.Master
 import IastModel.Rewriter.Rewrite
 /-
   C15 — reported metrics.  Read-out part (src/telemetry.rs, `get_metrics`): the three telemetry
@@ -34,5 +35,25 @@ theorem status_and_file (cfg : Config) (r : ModelResult) (file : String) :
 theorem status_strings :
     Status.notModified.name.toLower = "notmodified" ∧ Status.modified.name.toLower = "modified" ∧
     Status.cancelled.name.toLower = "cancelled" := by decide +kernel
+
+
+/-! ### the full statement, for every program: reported count = hook call sites emitted -/
+
+/-- **C15 (count).**  For every configuration, fuel and source program (one that does not itself
+    mention the hook namespace and whose compound-assignment targets have JavaScript shapes — both
+    checked on every input by the driver), if the rewrite is not refused then the number of
+    `_ddiast.<name>(…)` call sites in the output equals the number of telemetry increments, and
+    therefore the reported `instrumentedPropagation` under every verbosity but OFF. -/
+theorem reported_count_is_hook_sites (cfg : Config) (fuel : Nat) (p : Node)
+    (h0 : ns p = 0) (ht : targetsOk p = true)
+    (hnc : (transformProgram cfg fuel p).status ≠ .cancelled) (hv : cfg.verbosity ≠ .off) :
+    instrumentedPropagation cfg.verbosity (transformProgram cfg fuel p).incs =
+      hookCount (transformProgram cfg fuel p).out := by
+  rw [count_is_incs _ _ hv]
+  exact (master cfg fuel p h0 ht hnc).1.symm
+
+/-- non-vacuity: a program that satisfies the hypotheses and is instrumented -/
+example : ns (Node.exprStmt (.bin "+" (.ident (.user "a") ⟨0, 1⟩) (.ident (.user "b") ⟨4, 5⟩) ⟨0, 5⟩) ⟨0, 5⟩) = 0 := by
+  decide +kernel
 
 end IastModel.C15
